@@ -19,6 +19,21 @@ NUMS = ["0", "-1", "7", "10", "3.14159", "1.50", "10.999", "1e5", "-2.5E-3", "12
         "123456789012345678901234567890"]
 
 
+# (Content-Encoding value, how the JSON text travels): declared encodings the exporters decode, do not decode, and lies
+ENCODINGS = [("", "plain"), ("", "plain"), ("gzip", "gzip"), ("gzip", "gzip"), ("gzip", "plain"), ("identity", "plain"), ("br", "plain"),
+             ("gzip, deflate", "plain"), ("gzip, deflate", "gzip"), ("GZIP", "gzip"), ("x-gzip", "gzip"), ("deflate", "plain"), ("", "gzip"),
+             ("br", "gzip")]
+
+
+def transport(rng, c):
+    """give an exporter case (legacy HAR generator, generateHAR pair) a transport: header value, header spelling, wire form"""
+    enc, wire = rng.choice(ENCODINGS)
+    c["enc"], c["wire"] = enc, wire
+    if enc and rng.random() < 0.3:
+        c["enc_name"] = "content-encoding"
+    return c
+
+
 def leaf(rng):
     t = rng.choice(["s", "s", "s", "n", "n", "b", "z"])
     v = rng.choice(STRS) if t == "s" else rng.choice(NUMS) if t == "n" else rng.choice(["true", "false"]) if t == "b" else "null"
@@ -95,7 +110,8 @@ def rand_case(rng, depth):
     for _ in range(rng.choice([0, 1, 1, 2, 2, 3])):
         x, kind = rand_excl(rng, paths, entry)
         excl.append(x); kinds.add(kind)
-    return {"entry": entry, "excl": excl, "doc": doc, "_kinds": sorted(kinds)}
+    c = {"entry": entry, "excl": excl, "doc": doc, "_kinds": sorted(kinds)}
+    return transport(rng, c) if entry.startswith("legacy") else c
 
 
 def execute(ctx, binary, cases, tag, conc=None):
@@ -131,7 +147,9 @@ def witness_of(e, detail):
         cls = "excluded-value-not-kept"
     else:
         cls = "value-neither-hashed-nor-kept"
-    return {"class": cls, "entry": e["entry"], "exclusions": e["excl_strings"], "input": e["in"][:400], "output": e["out"][:400],
+    if e.get("enc") or e.get("wire", "plain") != "plain":
+        cls += "-content-encoding-" + (e["enc"] or "none").replace(", ", "+") + "-on-" + e["wire"] + "-body"
+    return {"class": cls, "entry": e["entry"], "content_encoding": e.get("enc", ""), "wire": e.get("wire", "plain"), "exclusions": e["excl_strings"], "input": e["in"][:400], "output": e["out"][:400],
             "shape": e["shape"], "offending_leaves": bad[:6]}
 
 
@@ -202,7 +220,8 @@ def rand_history(rng, depth):
         x, _ = rand_excl(rng, paths, "har_request")
         excl.append(x)
     if rng.random() < 0.5:
-        return [dict(entry="har_request", excl=excl, doc=docs[0], pair="req"), dict(entry="har_response", excl=excl, doc=docs[1], pair="resp")]
+        return [transport(rng, dict(entry="har_request", excl=excl, doc=docs[0], pair="req")),
+                transport(rng, dict(entry="har_response", excl=excl, doc=docs[1], pair="resp"))]
     out, e = [], "har_request"
     for d in docs:
         out.append(dict(entry=e, excl=excl, doc=d))
@@ -282,6 +301,8 @@ def run(ctx):
                                "test_utils.NewMockAPIStream as the transaction of the HAR collector"]
     ctx.assumptions += ["keys contain no '.', '[' or '$' and are unique within an object (the path notation is ambiguous otherwise)",
                         "array steps are written '[]' in both notations (the only form the code supports)",
+                        "a body whose declared Content-Encoding is not one the exporter decodes (anything but none / exact 'gzip' on gzip data) may "
+                        "be exported opaque (empty or whole-body hash) instead of obfuscated leaf by leaf, never verbatim",
                         "the statement is silent on null: a null outside excluded paths may be hashed or kept",
                         "the plain notation is not a notation of the HAR collector's exclusion list, a JSONPath is not a notation of the legacy "
                         "exporter's request_body_paths / response_body_paths: their effect there is left open"]
@@ -297,7 +318,8 @@ def run(ctx):
           ("MC_legacy_quick.cfg", "I=>P legacy HAR generator bodies")]
     runs = [(cfg, label, None) for cfg, label in ex] + [
         ("MC_json_quick_suffix.cfg", "non-vacuity: the suffix test of the pinned commit must be refuted", "Conforms"),
-        ("MC_json_quick_name.cfg", "non-vacuity: exclusion by key name must be refuted", "Conforms")]
+        ("MC_json_quick_name.cfg", "non-vacuity: exclusion by key name must be refuted", "Conforms"),
+        ("MC_body_verbatim.cfg", "non-vacuity: an undecoded body exported as received must be refuted", "ASSUME")]
     exhaustive_parallel(ctx, sd, "MC_C16", runs, workers=4 if not T else 8, par=5 if not T else 2)
 
     seen = set()
@@ -321,6 +343,8 @@ def run(ctx):
     cases += har
     for i, c in enumerate(cases):
         c["id"] = i
+        if c["entry"].startswith("legacy"):      # the generated legacy-exporter cases travel under seeded Content-Encoding variants
+            transport(ctx.rng, c)
     events = execute(ctx, binary, cases, "gen")
     rej = judge(ctx, binary, cases, events, "gen", seen)
     ctx.log("executed %d generated cases: %d rejected by the spec" % (len(cases), len(rej)))
@@ -338,6 +362,7 @@ def run(ctx):
         c["id"] = i
     events = execute(ctx, binary, cases, "rand")
     rej = judge(ctx, binary, cases, events, "rand", seen)
+    rand_events = events
     coll = sum(1 for c, e in zip(cases, events) if "collision" in c["_kinds"] and any(l["c"] == "hidden" for l in e["leaves"]))
     types = {}
     for e in events:
@@ -364,6 +389,15 @@ def run(ctx):
         len(hc), hc[-1]["h"], sum(1 for c in hc if c.get("pair") == "req"), len(rej)))
     ctx.notes.append("bodies obfuscated in histories on one obfuscator object / by one generateHAR call: %d random + the generated HAR cases" % len(hc))
 
+    tr = {}
+    for e in gen_events + rand_events + events:
+        if e["enc"] or e["wire"] != "plain":
+            k = (e["enc"], e["wire"], "same" if e["shape"] == "same" else e["shape"])
+            tr[k] = tr.get(k, 0) + 1
+    if not ctx.violations and (not any(k[2] == "opaque" for k in tr) or not tr.get(("gzip", "gzip", "same")) or not tr.get(("br", "plain", "same"))):
+        raise Broken("content-encoding variants not exercised (vacuous): %s" % tr)
+    ctx.notes.append("exporter bodies under Content-Encoding variants (value, wire form, outcome): %s" % sorted(tr.items()))
+
     # (3c) concurrent obfuscation of large documents with excluded subtrees: per-call judgement
     workers = 32
     calls, cev, _ = judge_conc(ctx, binary, big_cases(ctx.rng, workers), workers, 1200 if not T else 8000)
@@ -386,7 +420,9 @@ def run(ctx):
         e["shape"] = "key-lost-a at "; bad.append(("structure changed", e))
         e = json.loads(json.dumps(src[3 % len(src)]))
         e["excl"] = []; bad.append(("exclusions dropped from the record", e))
-    if len(bad) < 4 and not ctx.violations:
+        e = json.loads(json.dumps(src[4 % len(src)]))
+        e["shape"], e["enc"], e["wire"] = "opaque", "", "plain"; bad.append(("a decodable body reported as exported opaque", e))
+    if len(bad) < 5 and not ctx.violations:
         raise Broken("binding self-test: no accepted case to corrupt")
     for i, (_, e) in enumerate(bad):
         e["id"] = i
